@@ -55,7 +55,7 @@ fn c14_q_xls_ref_row0_l1() {
 #[kani::proof]
 #[kani::unwind(12)]
 #[kani::stub(crate::utils::push_column, crate::k_kcommon::model_push_column_l2)]
-fn c14_q_xls_ref_row98_l2() {
+fn c14_t_xls_ref_row98_l2() {
     ptg_ref_case::<0x44, 98, 2, 26, 256, 2>()
 }
 #[kani::proof]
